@@ -29,6 +29,11 @@ int64_t sim_mix(int64_t a, const char *s, int64_t b, int64_t c) {
     h ^= (uint64_t)b * 31 + (uint64_t)c * 131;
     return (int64_t)(h & 0x7fffffffffffffffull);
 }
+/* opaque handles cross the pipe as 64-bit values */
+int64_t sim_handle_new(int64_t x) { return (int64_t)0x7f0000000000ll + x * 4096 + 8; }
+int64_t sim_handle_get(int64_t h) { return (h - 0x7f0000000000ll - 8) / 4096; }
+/* mixed signature: the float arrives as its bit pattern in a general register, the result is returned the same way */
+int64_t sim_mixf(int64_t a, int64_t fbits, const char *s) { double f; memcpy(&f, &fbits, 8); double r = (double)a * 0.5 + f + (double)strlen(s); int64_t rb; memcpy(&rb, &r, 8); return rb; }
 char *sim_mkstr(int64_t n) {
     if (n < 0) n = 0;
     char *s = __real_malloc((size_t)n + 1);
@@ -46,6 +51,10 @@ DynArray *sim_mkarr(int64_t n) {
  * C15 workload generator
  * ====================================================================== */
 static const char *PRELUDE =
+"opaque type Handle\n"
+"extern fn sim_handle_new(x: int) -> Handle\n"
+"extern fn sim_handle_get(h: Handle) -> int\n"
+"extern fn sim_mixf(a: int, f: float, s: string) -> float\n"
 "extern fn sim_id_int(x: int) -> int\n"
 "extern fn sim_id_float(x: float) -> float\n"
 "extern fn sim_id_bool(x: bool) -> bool\n"
@@ -76,8 +85,8 @@ static const char *PRELUDE =
 "}\n";
 
 typedef struct Step { int kind; long a, b; } Step;
-enum { ST_INT = 0, ST_FLOAT, ST_BOOL, ST_STR, ST_STRLEN, ST_ARR, ST_FARR, ST_SARR, ST_MIX, ST_VOID, ST_MKSTR, ST_MKARR, ST_SQRT, ST_NKINDS };
-static const char *st_name[] = { "id_int", "id_float", "id_bool", "id_str", "strlen", "id_arr", "id_farr", "id_sarr", "mix", "void", "mkstr", "mkarr", "sqrt_pow" };
+enum { ST_INT = 0, ST_FLOAT, ST_BOOL, ST_STR, ST_STRLEN, ST_ARR, ST_FARR, ST_SARR, ST_MIX, ST_VOID, ST_MKSTR, ST_MKARR, ST_SQRT, ST_OPAQUE, ST_MIXF, ST_NKINDS };
+static const char *st_name[] = { "id_int", "id_float", "id_bool", "id_str", "strlen", "id_arr", "id_farr", "id_sarr", "mix", "void", "mkstr", "mkarr", "sqrt_pow", "opaque", "mixf" };
 static const long STRLENS[] = { 0, 1, 2, 255, 256, 4095, 4096, 8100, 8185, 8186, 8187, 8188, 8190, 8192, 8195, 16384, 65536 };
 static const long RESLENS[] = { 0, 1, 4089, 4090, 4091, 4092, 4096, 8200, 65536, 1048570, 1048571, 1048572, 1048580, 2000000 };
 static const long ARRLENS[] = { 0, 1, 2, 100, 454, 455, 456, 1000, 20000, 116507, 116509, 200000 };
@@ -114,6 +123,8 @@ static void emit_step(Buf *b, int i, Step *s) {
         buf_printf(b, "    let r%d: array<int> = (sim_mkarr %ld)\n    (println (+ %s (int_to_string (array_length r%d))))\n", i, s->a, pre, i);
         if (s->a > 0) buf_printf(b, "    (println (+ %s (int_to_string (at r%d %ld))))\n", pre, i, s->a - 1);
         break;
+    case ST_OPAQUE: buf_printf(b, "    let h%d: Handle = (sim_handle_new %ld)\n    (println (+ %s (int_to_string (sim_handle_get h%d))))\n", i, s->a, pre, i); break;
+    case ST_MIXF: buf_printf(b, "    (print %s)\n    (println (sim_mixf %s %s (mk %ld 3)))\n", pre, INTS[s->a % 8], FLOATS[s->b % 9], (s->a * 37) % 300); break;
     case ST_SQRT: buf_printf(b, "    (print %s)\n    (println (sqrt %s))\n    (print %s)\n    (println (pow %s 2.0))\n", pre, FLOATS[s->a], pre, FLOATS[s->b]); break;
     }
 }
@@ -210,6 +221,8 @@ static void plan_gen(CPlan *P, uint64_t seed, const RunOpts *o) {
         case ST_MKSTR: s->a = RESLENS[sim_rndn(sizeof RESLENS / sizeof *RESLENS)]; break;
         case ST_MKARR: s->a = ARRLENS[sim_rndn(sizeof ARRLENS / sizeof *ARRLENS)]; break;
         case ST_SQRT: s->a = sim_rndn(9); s->b = sim_rndn(9); break;
+        case ST_OPAQUE: s->a = sim_rndn(1000000); break;
+        case ST_MIXF: s->a = sim_rndn(64); s->b = sim_rndn(9); break;
         }
     }
     sim_seed(save);
